@@ -41,7 +41,14 @@ def default_of(name):
     return ("dflt", name)
 
 
-def source(sig, fname="f", method=False, is_async=False, body=None):
+DEFAULT_STYLES = {
+    0: lambda name, i: f"('dflt', '{name}')",
+    # falsy, None and mutable defaults: a default must be honoured whatever its truth value
+    1: lambda name, i: ["None", "0", "''", "[]", "False", "()", "0.0", "{}"][i % 8],
+}
+
+
+def source(sig, fname="f", method=False, is_async=False, body=None, dstyle=0):
     """Python source text of a def with this signature."""
     parts = []
     kinds = [s[0] for s in sig]
@@ -56,7 +63,7 @@ def source(sig, fname="f", method=False, is_async=False, body=None):
             continue
         if kind == "O" and "V" not in kinds and (i == 0 or sig[i - 1][0] != "O"):
             parts.append("*")
-        parts.append(name + (f"=('dflt', '{name}')" if d else ""))
+        parts.append(name + (("=" + DEFAULT_STYLES[dstyle](name, i)) if d else ""))
         if kind == "P" and (i + 1 == len(sig) or sig[i + 1][0] != "P"):
             parts.append("/")
     if method and sig and sig[0][0] == "P":
@@ -90,7 +97,7 @@ def call_shapes(sig, extra_kw=("zz", "yy")):
     nameable = [s[1] for s in sig if s[0] in "KO"]
     posonly = [s[1] for s in sig if s[0] == "P"]
     has_w = any(s[0] == "W" for s in sig)
-    extras = [(), extra_kw[:1], extra_kw[:2]]
+    extras = [(), extra_kw[:1], extra_kw[:2], ("_a",)]   # '_a' sorts before every parameter name, 'zz' after
     if has_w and posonly:
         extras.append((posonly[0],))
     for npos in range(0, len(pos) + 3):
